@@ -36,8 +36,8 @@ Inductive case :=
 | CArity (nargs : Z) (variadic : bool) (len : Z) (err : Z) (fixed tail : Z)
 (* histories on bridged containers, script and Go operations interleaved;
    one observation per operation *)
-| CSlice (addr : bool) (elems : list Z) (cap : Z) (ops : list sop) (o : list ob)
-| CArray (elems : list Z) (ops : list sop) (o : list ob)
+| CSlice (addr : bool) (elems : list Z) (cap : Z) (ops : list xop) (o : list ob)
+| CArray (elems : list Z) (ops : list xop) (o : list ob)
 | CMap (init : list (Z * Z)) (ops : list mop) (o : list ob)
 | CStruct (fs : list fld) (uppers methods : list Z) (init : list (list Z)) (ops : list top) (o : list ob)
 (* f(args...) for a Go function with these parameter types: CV (GVStruct received) or CE class *)
@@ -48,6 +48,8 @@ Inductive case :=
 (* pinned witness of a recorded defect that is not modelled: how = 0 the
    defect as recorded, 1 the behaviour the property asks for, 2 anything else *)
 | CPinned (cls : Z) (how : Z)
+(* regression case of a repaired defect: the behaviour the property asks for (how = 1) is the only one accepted *)
+| CRegress (cls : Z) (how : Z)
 (* a script that is a sequence of calls of bridged functions whose arguments may
    re-enter the bridge while they are converted: the Go-side log and the error class *)
 | CReent (calls : list rcall) (log : list (Z * list Z)) (err : Z)
@@ -103,12 +105,12 @@ Fixpoint first_diff {O} (ops : list O) (a b : list ob) : option (O * ob) :=
    7  append / growth through a struct-field slice is lost (goes to a copy)
    8  `i in s` is true for every index
    10 a field tagged json:"-" is readable but writes to it are dropped *)
-Definition slice_class (ops : list sop) (m i : list ob) : Z :=
+Definition slice_class (ops : list xop) (m i : list ob) : Z :=
   match first_diff ops m i with
-  | Some (JHas _, _) => 8
-  | Some (JSetLen _, (2, _)) | Some (JPop, (2, _)) => 6
-  | Some (JSet _ _, (2, _)) | Some (JPush _, (2, _)) => 5
-  | Some (JSet _ _, _) | Some (JPush _, _) => 2
+  | Some (XS (JHas _), _) => 8
+  | Some (XS (JSetLen _), (2, _)) | Some (XS JPop, (2, _)) => 6
+  | Some (XS (JSet _ _), (2, _)) | Some (XS (JPush _), (2, _)) => 5
+  | Some (XS (JSet _ _), _) | Some (XS (JPush _), _) => 2
   | _ => 7
   end.
 Definition map_class (ops : list mop) (m i : list ob) : Z :=
@@ -134,12 +136,12 @@ Definition verdict (c : case) : Z * Z :=
       let sh := if e =? 0 then call_shape nargs variadic len else (-1, -1) in
       judge (list_eqb Z.eqb) [err; fixed; tail] [e; fst sh; snd sh] [e; fst sh; snd sh] 0
   | CSlice addr elems cap ops o =>
-      let m := srun addr false (sinit elems cap) ops in
-      let i := srun addr true (sinit elems cap) ops in
+      let m := sxrun addr false (sinit elems cap, None) ops in
+      let i := sxrun addr true (sinit elems cap, None) ops in
       judge obs_eqb o m i (slice_class ops m i)
   | CArray elems ops o =>
-      let m := arun false elems ops in
-      let i := arun true elems ops in
+      let m := axrun false (elems, None) ops in
+      let i := axrun true (elems, None) ops in
       judge obs_eqb o m i (slice_class ops m i)
   | CMap init ops o =>
       let m := mrun false init ops in
@@ -162,6 +164,7 @@ Definition verdict (c : case) : Z * Z :=
                 match vals with _ :: _ :: _ => true | _ => false end) in
       judge (fun a b => list_eqb jobs_eqb (fst a) (fst b) && Bool.eqb (snd a) (snd b)) (o, isarr) e e 0
   | CPinned cls how => judge Z.eqb how 0 1 cls
+  | CRegress cls how => judge Z.eqb how 1 1 cls
   | CReent calls log err =>
       let e := (flat_map (ev_call 8) calls, 0) in
       judge (fun a b => list_eqb (fun x y => (fst x =? fst y) && zlist_eqb (snd x) (snd y)) (fst a) (fst b) && (snd a =? snd b))
